@@ -71,6 +71,7 @@ type vgoHarness struct {
 	lastCap  map[int64][]byte  // goroutine -> last captured announcement
 	snaps    map[string][]byte
 	snapKeys []string
+	lastSnap []int // shard ids held by the most recent Snapshot / Join
 	merged   map[string]bool
 	outbox   []*vgoMsg
 	leaves   map[string]bool // "i>j" leave notifications delivered
@@ -243,6 +244,22 @@ type devNull struct{}
 
 func (devNull) Write(p []byte) (int, error) { return len(p), nil }
 
+func (h *vgoHarness) snapNow() []int {
+	if h.lastSnap == nil {
+		return []int{}
+	}
+	return h.lastSnap
+}
+
+func (h *vgoHarness) localOf(in *vgoInst) []int {
+	loc := []int{}
+	for _, s := range in.sm.GetLocalShards() {
+		loc = append(loc, int(s.ShardID))
+	}
+	sort.Ints(loc)
+	return loc
+}
+
 func (h *vgoHarness) view() map[string]interface{} { // caller holds mu
 	out := map[string]interface{}{}
 	for n, in := range h.inst {
@@ -255,12 +272,19 @@ func (h *vgoHarness) view() map[string]interface{} { // caller holds mu
 		}
 		sort.Ints(loc)
 		peers := []string{}
+		remote := map[string][]int{}
 		rs, _ := in.sm.GetRemoteShardsForPeer("")
-		for p := range rs {
+		for p, st := range rs {
 			peers = append(peers, p)
+			sh := []int{}
+			for _, si := range st.Shards {
+				sh = append(sh, int(si.ID.ShardID))
+			}
+			sort.Ints(sh)
+			remote[p] = sh
 		}
 		sort.Strings(peers)
-		out[n] = map[string]interface{}{"local": loc, "peers": peers}
+		out[n] = map[string]interface{}{"local": loc, "peers": peers, "remote": remote}
 	}
 	return out
 }
@@ -374,6 +398,7 @@ func (h *vgoHarness) exec(c vgoCmd) bool {
 		k := fmt.Sprintf("%s>%s/%d", c.I, c.J, c.Val)
 		h.snaps[k] = in.sm.delegate.LocalState(false)
 		h.snapKeys = append(h.snapKeys, k)
+		h.lastSnap = h.localOf(in)
 		h.mu.Unlock()
 		return true
 	case "Merge":
@@ -411,6 +436,7 @@ func (h *vgoHarness) exec(c vgoCmd) bool {
 			h.snaps[k] = in.sm.delegate.LocalState(true)
 			h.snapKeys = append(h.snapKeys, k)
 		}
+		h.lastSnap = h.localOf(in)
 		h.mu.Unlock()
 		in.late = false
 		return true
@@ -433,7 +459,7 @@ func (h *vgoHarness) runSchedule(sc *vgoSched) {
 	for i, c := range sc.Cmds {
 		ok := h.exec(c)
 		h.mu.Lock()
-		h.emit(map[string]interface{}{"ev": "Step", "a": c.A, "i": c.I, "j": c.J, "sh": c.Sh, "type": c.Type, "ts": c.Ts, "keep": c.Keep, "ok": ok, "view": h.view()})
+		h.emit(map[string]interface{}{"ev": "Step", "a": c.A, "i": c.I, "j": c.J, "sh": c.Sh, "type": c.Type, "ts": c.Ts, "keep": c.Keep, "ok": ok, "val": c.Val, "snap": h.snapNow(), "view": h.view()})
 		h.mu.Unlock()
 		if !ok {
 			h.mu.Lock()
@@ -471,7 +497,7 @@ func (h *vgoHarness) runSchedule(sc *vgoSched) {
 				c := vgoCmd{A: "Announce", I: n, Sh: sh, Type: typ, Ts: 100000 + h.seq}
 				ok := h.exec(c)
 				h.mu.Lock()
-				h.emit(map[string]interface{}{"ev": "Step", "a": c.A, "i": c.I, "j": "", "sh": c.Sh, "type": c.Type, "ts": c.Ts, "keep": false, "ok": ok, "flush": true, "view": h.view()})
+				h.emit(map[string]interface{}{"ev": "Step", "a": c.A, "i": c.I, "j": "", "sh": c.Sh, "type": c.Type, "ts": c.Ts, "keep": false, "ok": ok, "flush": true, "val": c.Val, "snap": h.snapNow(), "view": h.view()})
 				h.mu.Unlock()
 				progressed = true
 			}
@@ -494,7 +520,7 @@ func (h *vgoHarness) runSchedule(sc *vgoSched) {
 				c := vgoCmd{A: "Deliver", I: from, J: to, Sh: sh, Type: typ, Ts: ts}
 				ok := h.exec(c)
 				h.mu.Lock()
-				h.emit(map[string]interface{}{"ev": "Step", "a": c.A, "i": c.I, "j": c.J, "sh": c.Sh, "type": c.Type, "ts": c.Ts, "keep": false, "ok": ok, "flush": true, "view": h.view()})
+				h.emit(map[string]interface{}{"ev": "Step", "a": c.A, "i": c.I, "j": c.J, "sh": c.Sh, "type": c.Type, "ts": c.Ts, "keep": false, "ok": ok, "flush": true, "val": c.Val, "snap": h.snapNow(), "view": h.view()})
 				h.mu.Unlock()
 				progressed = true
 			}
@@ -509,7 +535,7 @@ func (h *vgoHarness) runSchedule(sc *vgoSched) {
 				c := vgoCmd{A: "Merge", I: i, J: j, Val: val}
 				ok := h.exec(c)
 				h.mu.Lock()
-				h.emit(map[string]interface{}{"ev": "Step", "a": c.A, "i": c.I, "j": c.J, "sh": 0, "type": "", "ts": 0, "keep": false, "ok": ok, "flush": true, "view": h.view()})
+				h.emit(map[string]interface{}{"ev": "Step", "a": c.A, "i": c.I, "j": c.J, "sh": 0, "type": "", "ts": 0, "keep": false, "ok": ok, "flush": true, "val": c.Val, "snap": h.snapNow(), "view": h.view()})
 				h.mu.Unlock()
 				progressed = true
 			}
@@ -523,7 +549,7 @@ func (h *vgoHarness) runSchedule(sc *vgoSched) {
 					c := vgoCmd{A: "NotifyLeave", I: n, J: j}
 					ok := h.exec(c)
 					h.mu.Lock()
-					h.emit(map[string]interface{}{"ev": "Step", "a": c.A, "i": c.I, "j": c.J, "sh": 0, "type": "", "ts": 0, "keep": false, "ok": ok, "flush": true, "view": h.view()})
+					h.emit(map[string]interface{}{"ev": "Step", "a": c.A, "i": c.I, "j": c.J, "sh": 0, "type": "", "ts": 0, "keep": false, "ok": ok, "flush": true, "val": c.Val, "snap": h.snapNow(), "view": h.view()})
 					h.mu.Unlock()
 					progressed = true
 				}
